@@ -454,7 +454,7 @@ def c04(ctx):
                 "window seams, all judged (verdict AND exposed bytes) by the TLA+ recogniser. Non-trivial = every table row; accepted trace cases.")
     q = quick(ctx)
     for cfg in (["MC_StringEsc_units.cfg", "MC_StringEsc_lows.cfg"] if q else ["MC_StringEsc_units.cfg", "MC_StringEsc_allpairs.cfg"]):
-        r = ctx.tlc("MC_StringEsc", cfg=cfg, dump="states", label=cfg, timeout=3000)
+        r = ctx.tlc("MC_StringEsc", cfg=cfg, dump="states", label=cfg, timeout=3000, extra=["-maxSetSize", "1200000"])
         ctx.vh(["g-esc", "-dump", r["dump"], "-expect", str(r["distinct"]), "-property", "C04", "-variants", "2" if q else "3"], timeout=7200)
         os.remove(r["dump"])
     record_and_validate_text(ctx, "C04", False, 100 if q else 6000, 0, mode="esc")
